@@ -18,16 +18,6 @@ def _stub_parse(statement, **kw):
 pm.yacc.parse = _stub_parse  # stub: listed in the evidence
 
 
-class _Escaped:
-    """Stands for Parser.data (bytes): .decode() gives the unicode-escaped text."""
-
-    def __init__(self, text):
-        self.text = text
-
-    def decode(self, *a):
-        return self.text
-
-
 def esc(lines) -> str:
     return "\\n".join(lines)
 
@@ -44,7 +34,9 @@ def fresh_state():
 def run_lines(lines, fresh=True):
     if fresh:
         fresh_state()
-    PARSER.data = _Escaped(esc(lines))
+    # Parser.data is what the constructor stores: the bytes of the unicode-escaped text (real bytes, so that any
+    # isinstance / bytes-method use in the code under test behaves as in production)
+    PARSER.data = esc(lines).encode("utf-8")
     return PARSER.parse_data()
 
 
@@ -196,7 +188,10 @@ COMMENT_TEXTS = [" note", " a, b (c)", " drop this;", " use b instead of a", " i
 NCT = len(COMMENT_TEXTS)
 BASE_SCRIPTS = [["CREATE TABLE t (", "a int,", "b varchar(10) NOT NULL,", "c int", ");", "CREATE SEQUENCE q START 1;"],
                 # lines that carry quoted literals (a double quote inside single quotes, an apostrophe inside double quotes)
-                ["CREATE TABLE t (", "a varchar(3) DEFAULT '\"',", "\"b's\" varchar(10),", "c int DEFAULT 'x'", ");", "CREATE SEQUENCE q START 1;"]]
+                ["CREATE TABLE t (", "a varchar(3) DEFAULT '\"',", "\"b's\" varchar(10),", "c int DEFAULT 'x'", ");", "CREATE SEQUENCE q START 1;"],
+                # literals whose text the spacing rules of pre_process_data touch (comma + blank, parentheses): a second
+                # pass of those rules over already prepared text would change them again
+                ["CREATE TABLE t (", "a varchar(9) DEFAULT 'x, y',", "b varchar(10) COMMENT 'p (q), r',", "c int", ");", "CREATE SEQUENCE q START 1;"]]
 BASE_SCRIPT = BASE_SCRIPTS[env_int("VF_BASE", 0)]
 BASE_RESULT = run_lines(BASE_SCRIPT)
 NBL = len(BASE_SCRIPT)
@@ -269,6 +264,29 @@ NCT_RERUN = env_int("VF_NCT", NCT)
 RERUN_LINES = [0, 7, 14, 18, 20]  # CREATE TABLE / SELECT / GO / blank / SET as the last line
 
 
+def words_keep_literals(text: str):
+    """the statement's words, blank-insensitive outside single quotes and exact inside them
+    (what the lexer sees: blanks between tokens are skipped, a quoted literal is one token)"""
+    out, cur, inq = [], "", False
+    for ch in text:
+        if ch == "'":
+            inq = not inq
+            cur += ch
+        elif ch in " \t" and not inq:
+            if cur:
+                out.append(cur)
+            cur = ""
+        else:
+            cur += ch
+    if cur:
+        out.append(cur)
+    return out
+
+
+def lexer_view(result):
+    return [(words_keep_literals(r["stmt"]) if isinstance(r, dict) and "stmt" in r else r) for r in result]
+
+
 def c_rerun(at: int, ti: int, j: int) -> bool:
     """
     C14.rerun: parse_data() twice on one object gives equal results (comments included) and
@@ -284,8 +302,11 @@ def c_rerun(at: int, ti: int, j: int) -> bool:
     lines = lines + [LINES[RERUN_LINES[j]]]
     first = run_lines(lines)
     snapshot = deepcopy(first)
-    second = run_lines(lines, fresh=False)
-    return second == snapshot and first == snapshot
+    # second call on the same object: nothing is re-initialised, Parser.data is whatever the first call left
+    second = PARSER.parse_data()
+    # statements are compared as the lexer sees them (blanks between tokens do not matter, literals are exact);
+    # comments, SET entries and everything else verbatim
+    return lexer_view(second) == lexer_view(snapshot) and first == snapshot
 
 
 # ---------------------------------------------------------------- replay ---------------------
